@@ -133,6 +133,11 @@ _SYN = (
     " I --- {thm} --:------ {ctl} 2309 003 {zz}{tmp}",
     "RP --- {ctl} {gwy} --:------ 0004 022 {zz}00{name}",
     " I --- {ctl} --:------ {ctl} 0418 022 00{ft}00{li}B00{dc}00000000{ts}FFFF7000{devhex}",
+    # the hot-water subsystem's relays and sensor as the controller reports them (one relay may turn up in more than one role)
+    "RP --- {ctl} {gwy} --:------ 000C 006 000E{b7}{rly}",
+    "RP --- {ctl} {gwy} --:------ 000C 006 010E{b7}{rly}",
+    "RP --- {ctl} {gwy} --:------ 000C 006 000F{b7}{rly}",
+    "RP --- {ctl} {gwy} --:------ 000C 006 000D{b7}1CB388",
     # unusual-but-decodable shapes: arrays where a single value is usual, single elements where an array is usual, other addressees
     " I --- {ctl} --:------ {ctl} 3150 004 {zz}{pct}{zz2}{pct2}",
     " I --- {ctl} --:------ {ctl} 0009 006 {dom}{b}FF{zz}{b}FF",
@@ -196,6 +201,7 @@ def synthetic_frames(draw: Any, ctl: str, n: int) -> list[str]:
             ts=draw(st.sampled_from(("CB955F71", "00000000", "FFFFFFFF", "7FFFFFFF"))),
             hv1=draw(st.sampled_from(("37:155617", "32:208628", "29:158183"))), hv2=draw(st.sampled_from(("32:155617", "30:098165"))),
             hvx=draw(st.sampled_from(("9660E1", "832EF4", "7669E7"))), hvy=draw(st.sampled_from(("825FE1", "797F75"))), thx="8969E3",
+            rly=draw(st.sampled_from(("34C27E", "34C27F"))),  # 13:049790 / 13:049791
             bc=draw(st.sampled_from(("22F1", "31DA", "1298", "31E0", "2309"))), bc2=draw(st.sampled_from(("31D9", "31DA", "10E0"))),
         )
         ln = len(f[46:]) // 2
@@ -218,7 +224,7 @@ def history(draw: Any, max_len: int = 120, min_len: int = 10, synthetic: bool = 
     h = frames[start:start + n]
     muts = []
     for _ in range(draw(st.integers(0, 6))):
-        kind = draw(st.sampled_from(("delete", "duplicate", "swap", "move-block", "splice", "corpus-lines", "field", "field", "field") + (("synthetic", "synthetic", "array-pair") if synthetic else ())))
+        kind = draw(st.sampled_from(("delete", "duplicate", "swap", "move-block", "splice", "corpus-lines", "field", "field", "field") + (("synthetic", "synthetic", "array-pair", "dhw-roles") if synthetic else ())))
         if not h:
             break
         i = draw(st.integers(0, len(h) - 1))
@@ -246,6 +252,12 @@ def history(draw: Any, max_len: int = 120, min_len: int = 10, synthetic: bool = 
             cf = corpus_frames()
             writes = tuple(f for f in cf if f[:2] == " W")  # writes are rare in logs, and have rules of their own (C16)
             h[i:i] = [draw(st.sampled_from(writes if writes and draw(st.integers(0, 2)) == 0 else cf)) for _ in range(draw(st.integers(1, 6)))]
+        elif kind == "dhw-roles":
+            # the controller names the parts of its hot-water subsystem (RP|000C): sensor, hot-water valve, heating valve, appliance
+            # control - in any order, with relays drawn from a set of two (so one relay can be named for two roles)
+            ctl = next((f[7:16] for f in h if f[7:9] == "01"), None) or next((f[17:26] for f in h if f[17:19] == "01"), "01:145038")
+            parts = draw(st.lists(st.sampled_from(("000E", "010E", "000F", "000D")), min_size=2, max_size=4))
+            h[i:i] = [f"RP --- {ctl} 18:006402 --:------ 000C 006 {p_}00" + ("1CB388" if p_ == "000D" else draw(st.sampled_from(("34C27E", "34C27F")))) for p_ in parts]
         elif kind == "array-pair":
             # two adjacent zone-config broadcasts of the controller: whole array / part of an array / a single element, in either order
             # (the gateway merges the second into the first when it looks like a continuation - dispatcher.detect_array_fragment)
